@@ -445,8 +445,10 @@ def rule_d_e(repo, chk):
             q = pat.guarded_by(g, n, passed_for(ev))
             chk.ob('d', s.ref, 'an event is transmitted only if no send firewall is configured or the firewall accepted it', q is None, loc(s, n.ast),
                    path=pat.path_lines(q) if q else None, discr='send-firewall')
-    else:
-        # transmission lives in a helper: every call of the helper, anywhere in the node package, must have passed the firewall of this protocol
+    helpers_ = [m for m in txf if m is not entry] if s is entry else [s]
+    for s in helpers_:
+        # transmission (also) lives in a helper: every call of the helper, anywhere in the node package, must have passed the firewall of this protocol
+        # (calls that were inlined into their caller — sa/inline.py — are judged there, as part of the caller)
         n_sites = 0
         for f in repo.all_functions():
             if not f.module.relpath.startswith('circuits/node/'):
@@ -462,7 +464,8 @@ def rule_d_e(repo, chk):
                         okc = inside and pat.guarded_by(gf, n, passed_for(src(c.args[0]))) is None
                     chk.ob('d', f.ref, f'`{src(c)[:60]}` puts an event on the wire only after the send firewall of the protocol accepted it (or none is configured)',
                            okc, loc(f, c), discr=f'send-firewall:{f.qualname}')
-        chk.ob('d', s.ref, 'the transmitting helper is used', n_sites > 0, loc(s, s.node), discr='send-firewall', nontrivial=False)
+        chk.ob('d', s.ref, 'the transmitting helper is used', n_sites > 0 or getattr(s, 'absorbed', False) or bool(repo.inlined), loc(s, s.node), discr='send-firewall', nontrivial=False)
+    s = txf[0]
     # every transmitted packet consumes a call id (the peer answers every event under its id)
     ids = [n for n in g.nodes if n.kind == 'stmt' and isinstance(n.ast, ast.Assign) and src(n.ast.value) == 'self.__nid']
     incs = [n for n in g.nodes if n.kind == 'stmt' and isinstance(n.ast, ast.AugAssign) and src(n.ast.target) == 'self.__nid' and isinstance(n.ast.op, ast.Add)]
